@@ -1,3 +1,4 @@
 //! Shared generators.
 pub mod batch;
+pub mod vals;
 pub mod values;
